@@ -62,6 +62,63 @@ def handle (op : String) (a : Json) : Except String Json := do
     let v := value aff assigned
     return Json.mkObj [("valid", boolJ (validAssignment n m assigned)),
       ("optimal", boolJ (decide (best ≤ v + tol))), ("best", ratJ best), ("value", ratJ v)]
+  | "holds_contract" =>
+    -- `holds` on the output and the solver's contract on its answer in one request (one brute force)
+    let (n, m, aff) ← getMatrix a
+    let out ← (← fldArr a "out").mapM getEntry
+    let assigned ← (← fldArr a "assigned").mapM getPairNat
+    let tol ← fldRat a "tol"
+    let v := judge tol n m aff out
+    let best := bestValue n m aff
+    let val := value aff assigned
+    return Json.mkObj [("all", boolJ v.all), ("cover_src", boolJ v.coverSrc), ("cover_tgt", boolJ v.coverTgt),
+      ("entries", boolJ v.entries), ("optimal", boolJ v.optimal), ("best", ratJ best), ("total", ratJ (total out)),
+      ("solver_valid", boolJ (validAssignment n m assigned)), ("solver_optimal", boolJ (decide (best ≤ val + tol))),
+      ("solver_value", ratJ val)]
+  | "holds_cert" =>
+    -- the property on an observed output with optimality judged against a certified optimum
+    -- (`Proofs.C07.C07_holds_by_cert`: equal to `holds` whenever the certificate is accepted)
+    let (n, m, aff) ← getMatrix a
+    let out ← (← fldArr a "out").mapM getEntry
+    let tol ← fldRat a "tol"
+    let u := vecOf (← getRatList (← fld a "u"))
+    let v := vecOf (← getRatList (← fld a "v"))
+    let w ← (← fldArr a "witness").mapM getPairNat
+    let cert := certOk n m aff u v w
+    return Json.mkObj [("cert", boolJ cert),
+      ("all", boolJ (holdsShape n m aff out && optimalByCert tol n m aff u v w out)),
+      ("cover_src", boolJ ((srcs out).isPerm (List.range n))), ("cover_tgt", boolJ ((tgts out).isPerm (List.range m))),
+      ("entries", boolJ (out.all (entryOk aff))), ("optimal", boolJ (optimalByCert tol n m aff u v w out)),
+      ("best", ratJ (value aff w)), ("total", ratJ (total out))]
+  | "contract_cert" =>
+    let (n, m, aff) ← getMatrix a
+    let assigned ← (← fldArr a "assigned").mapM getPairNat
+    let tol ← fldRat a "tol"
+    let u := vecOf (← getRatList (← fld a "u"))
+    let v := vecOf (← getRatList (← fld a "v"))
+    let w ← (← fldArr a "witness").mapM getPairNat
+    let cert := certOk n m aff u v w
+    let val := value aff assigned
+    return Json.mkObj [("cert", boolJ cert), ("valid", boolJ (validAssignment n m assigned)),
+      ("optimal", boolJ (cert && decide (value aff w ≤ val + tol))), ("best", ratJ (value aff w)), ("value", ratJ val)]
+  | "shape" =>
+    -- the clauses other than optimality (`Proofs.C07.C07_shape_any_valid`), and scipy-free validity of `assigned`
+    let (n, m, aff) ← getMatrix a
+    let out ← (← fldArr a "out").mapM getEntry
+    let assigned ← (← fldArr a "assigned").mapM getPairNat
+    return Json.mkObj [("all", boolJ (holdsShape n m aff out)), ("valid", boolJ (validAssignment n m assigned)),
+      ("cover_src", boolJ ((srcs out).isPerm (List.range n))), ("cover_tgt", boolJ ((tgts out).isPerm (List.range m))),
+      ("entries", boolJ (out.all (entryOk aff)))]
+  | "match_geoms" =>
+    -- `matchGeometries`: the model fills the matrix itself (`fillMatrix`) from the geometries (indices into a
+    -- pool of distinct geometries) and the table of `compute_affinity` on pairs of the pool
+    let src ← getNatList (← fld a "source")
+    let tgt ← getNatList (← fld a "target")
+    let table ← (← fldArr a "table").mapM getRatList
+    let assigned ← (← fldArr a "assigned").mapM getPairNat
+    match matchGeometries (fun p q => matOfRows table p q) (fun _ _ _ => assigned) src tgt with
+    | .ok out => return valJ (arrJ (out.map entryJ))
+    | .error e => return Json.mkObj [("raise", Json.str (errName e))]
   | _ => .error s!"C07: unknown op {op}"
 
 end SE.Ops.C07
